@@ -24,7 +24,7 @@
    the consumer [env] (which may stop after any value), so the theorem covers every
    interleaving of consumer and generator, every stop point and every panic point. *)
 From Coq Require Import List.
-From Verif Require Import Base Syntax Sem Rewrite Side RwBase Rel TermSound RwCorrect Strict C01Main Link LinkMachine.
+From Verif Require Import Base Syntax Sem Rewrite Side RwBase Rel TermSound RwCorrect Strict C01Main C01Legal Link LinkMachine.
 Import ListNotations.
 
 Theorem C01_compiled_equals_source_partial :
@@ -58,6 +58,29 @@ Proof.
   - exists m. exact Hm.
 Qed.
 Print Assumptions C01_pass2_simulation_partial.
+
+(* The same with side conditions on the INPUT only, for bodies without `fallthrough`: [c01_hyps_nf body] says that the
+   body (after pass0) is in the fragment [supp2 true] and that the body and the intermediate code of pass2 stay below the
+   depth bound; that the rewriter accepts the body is still part of it (pass12 body = OK …, computed), but legality of the
+   output is now DERIVED: [legalb] of the output is a conclusion (Legal.v, P3Term.v, P3Legal.v). *)
+Theorem C01_compiled_equals_source_nofall_partial :
+  forall (U V P : Type)
+         (aden : nat -> U -> outcome U P unit) (cden : nat -> U -> outcome U P bool)
+         (tden : nat -> U -> outcome U P nat) (kval : nat -> nat) (yden : nat -> U -> outcome U P V)
+         (env : nat -> V -> U -> U * bool)
+         (body : list stmt),
+    c01_hyps_nf body = true ->
+    exists out, rewrite body = OK out /\ legalb (S (S KS)) out = true /\
+      forall n u f,
+        run_source aden cden tden kval yden env n body u = Some f -> f <> FStuck ->
+        exists m, run_target aden cden tden kval yden env true m out u = Some f.
+Proof. exact compiler_correct_nofall. Qed.
+Print Assumptions C01_compiled_equals_source_nofall_partial.
+
+Example C01_hyps_nf_hold :
+  c01_hyps_nf [SFor (Some (SAtom 1)) (Some 2) (Some (SAtom 3)) [SYield 4; SIf None 5 [SBreak] ENone; SAtom 6];
+               SSwitch None (Some 7) [(LVals [0], [SYield 8; SAtom 9]); (LDefault, [SAtom 10])]; SYield 11; SReturn] = true.
+Proof. vm_compute. reflexivity. Qed.
 
 (* END TO END, down to the machine model of seq/seq.go.  [machine_target … K out u N F] is the
    consumer's loop — MoveNext; Current; hand the value to the consumer; go on unless it stops — written
